@@ -82,6 +82,20 @@ GUploadCrashAfterDesc(r, t, k) ==
   /\ Upload(r, t, k)
   /\ Log([op |-> "uploadcrash", repo |-> r, tree |-> TreeArg(t), bulk |-> k, id |-> Len(bun) + 1, after |-> 99])
 
+\* a second writer with the id of a committed bundle (a preserved id used again, or the entries of a
+\* bundle object uploaded again - the call the mutable mount's commit makes): refused, nothing changes
+GReUpload(r, b, t, mode) ==
+  /\ WithCrash /\ b \in VisibleIn(r)
+  /\ UNCHANGED mvars
+  /\ Log([op |-> "reupload", repo |-> r, bundle |-> b, tree |-> TreeArg(t), mode |-> mode])
+
+\* two uploads preserving the same (new) id race: both pass the existence check, the first one
+\* completes, then the second one proceeds: it must fail and leave the first one's bundle alone
+GUploadRace(r, t, t2) ==
+  /\ WithCrash /\ Len(bun) < MaxBundles
+  /\ Upload(r, t, 0)
+  /\ Log([op |-> "uploadrace", repo |-> r, tree |-> TreeArg(t), loser |-> TreeArg(t2), bulk |-> 0, id |-> Len(bun) + 1])
+
 GSetLabel(r, n, b) ==
   /\ SetLabel(r, n, b)
   /\ Log([op |-> "setlabel", repo |-> r, name |-> n.n, bundle |-> b])
@@ -160,6 +174,9 @@ GStep ==
   \/ \E r \in repos : \E j \in 0..2 : \E t \in {RandTree}, k \in {R(Bulks)} : GUploadCrash(r, t, k, j)
   \/ \E r \in repos : \E t \in {RandTree}, k \in {R(Bulks)} : GUploadCrashAfterDesc(r, t, k)
   \/ \E r \in repos : \E f \in 1..3 : \E t \in {RandTree}, k \in {R(Bulks)} : GUploadFault(r, t, k, f)
+  \/ \E r \in repos : \E b \in {R(VisibleIn(r) \cup {0})} : \E t \in {RandTree}, m \in {R({"sameid", "entries"})} :
+        b # 0 /\ GReUpload(r, b, t, m)
+  \/ \E r \in repos : \E t \in {RandTree}, t2 \in {RandTree} : GUploadRace(r, t, t2)
   \/ "keys" \in Ops /\ \E r \in repos, i \in 1..2 : \E t \in {RandTree}, skip \in {R(BOOLEAN)} :
         \E keys \in {[j \in 1..R(0..4) |-> R(Paths)]} : GUploadKeys(r, t, keys, skip)
   \/ "label" \in Ops /\ \E r \in repos, i \in 1..LabelW : \E b \in {R(VisibleIn(r) \cup {0})} : \E n \in {R(Labels)} :
